@@ -65,6 +65,8 @@ fn main() {
    });
    let mut out = vec![];
    for c in &cases {
+      // (if the pipeline overflows the stack or never returns, the harness finds the case here)
+      std::fs::write(format!("{}.current", argv[2]), &c.id).ok();
       let o = vfrontend::run_pipeline(&c.kind, &c.text);
       PROGRESS.fetch_add(1, Ordering::Relaxed);
       out.push(serde_json::json!({"id": c.id, "outcome": o}));
